@@ -7,6 +7,9 @@ CONSTANTS
   ChunkMax = 2
   Parts <- Both
   Interleave = FALSE
+  BodySizes = {}
+  MaxArrive = 0
+  RepeatGuard = TRUE
   CheckDigest = TRUE
 VIEW genView
 ACTION_CONSTRAINT GenLog
